@@ -10,17 +10,20 @@ _Engine = Engine
 Engine = _ft.partial(_Engine, iter_adapters=False)
 
 EXPLANATION = (
-    "Static clauses: (R1) the disambiguation decision table of get_disambiguating_chars over the atoms {pawn capture, "
-    "some other like piece reaches the square, one of them on the same file, one on the same rank} equals the SAN table "
-    "(pawn capture -> file; no ambiguity -> nothing; ambiguity not on the file -> file; on the file but not the rank -> "
-    "rank; both -> square), and the two `any` predicates compare file with file and rank with rank; (R2) the ambiguity "
-    "filter keeps exactly the other moves with a different origin, the same destination and the same piece kind; (R3) "
-    "label assembly: piece letter, disambiguation, capture mark, destination, promotion, suffix in this order, with the "
-    "constants x = + # O-O O-O-O, piece letters in discriminant order, castle table and suffix table; (R4) labels are "
-    "built from the effect-annotated legal move list of the same board and player. Uniqueness of labels per position "
-    "follows from R1-R3 by the SAN argument given C01/C06 and is NOT separately decided."
-    " (R5) the +/# suffix is read from the stored effect of the move: every listed move is classified from the position it produces "
-    "(imports C06.R3).")
+    'Static clauses: (R1) the disambiguation decision table of get_disambiguating_chars over the atoms {pawn capture, some other like '
+    'piece reaches the square, one of them on the same file, one on the same rank} equals the SAN table (pawn capture -> file; no '
+    'ambiguity -> nothing; ambiguity not on the file -> file; on the file but not the rank -> rank; both -> square), and the two `any` '
+    'predicates compare file with file and rank with rank; (R2) the ambiguity filter keeps exactly the other moves with a different '
+    'origin, the same destination and the same piece kind; (R3) label assembly: piece letter, disambiguation, capture mark, '
+    'destination, promotion, suffix in this order, with the constants x = + # O-O O-O-O, piece letters in discriminant order, castle '
+    'table and suffix table; (R4) labels are built from the effect-annotated legal move list of the same board and player. Uniqueness '
+    'of labels per position follows from R1-R3 by the SAN argument given C01/C06 and is NOT separately decided. (R5) the +/# suffix is '
+    'read from the stored effect of the move: every listed move is classified from the position it produces (imports C06.R3). (R6) the '
+    'labelled list a game shows and resolves typed labels against is the list enumerated NOW for the board and the side to move (no '
+    'remembered list), and the typed label is matched by exact string equality against it (imports C14.R3). R1/R2 accept the per-'
+    'candidate test written as closure (for_each / filter+collect / extend) or as a plain for loop; file / rank characters are '
+    "recognised semantically (character 0 / 1 of the square's algebraic name) whichever helper extracts them."
+)
 ASSUMPTIONS = [
     "Iterator::any returns true iff the predicate holds for some element",
     "rustc MIR construction, the chessfacts extractor and the format_args! template decoding are faithful",
